@@ -232,6 +232,23 @@ Section Step2.
         | _, _ => None                                                    (* KeyError *)
         end
     end.
+
+  (* graph.py, the loop added after `result_node = ...` by the repair: wfnode2tfmnode for
+     every resource, so one that has not been reached from the target gets its node now *)
+  Fixpoint result_map_t (fuel : nat) (tab : etab) (st : gstate)
+      : option (list (nat * node) * gstate) :=
+    match tab with
+    | [] => Some ([], st)
+    | (r, _) :: rest =>
+        match w2t fuel r st with
+        | None => None
+        | Some (n, st1) =>
+            match result_map_t fuel rest st1 with
+            | None => None
+            | Some (l, st2) => Some ((r, n) :: l, st2)
+            end
+        end
+    end.
 End Step2.
 
 Definition wf_fuel (wf : wflow) : nat := S (length (w_apps wf)).
@@ -249,7 +266,14 @@ Definition add_workflow
           match w2t add_from pinned wf (e_tab E1) (wf_fuel wf) tg g_empty with      (* 483 *)
           | None => None
           | Some (res, st1) =>
-              match indir_loop add_from add_from_r pinned (e_ind E1) st1 with       (* 487-490 *)
+              (* as repaired (commits 5e78fd2, then the one after it): every resource is
+                 visited right after the target, before the stand-in sources are connected *)
+              match (if pinned then Some st1
+                     else option_map snd (result_map_t add_from pinned wf (e_tab E1) (wf_fuel wf)
+                                            (e_tab E1) st1)) with
+              | None => None
+              | Some st1' =>
+              match indir_loop add_from add_from_r pinned (e_ind E1) st1' with      (* 487-490 *)
               | None => None
               | Some st2 =>
                   match inputs_loop add_from pinned wf (e_tab E1) (wf_fuel wf) (w_srcs wf) st2 with
@@ -260,6 +284,7 @@ Definition add_workflow
                       | Some m => Some (mkRes (g_tr st3) ins res m)       (* 497-498 *)
                       end
                   end
+              end
               end
           end
       end
